@@ -59,7 +59,7 @@ def seiGroup : G (List String) := do
     let p ← genPicTiming sv
     let bits ← sealPayload (encPicTiming sv p)
     let ok := match readPicTiming sv ⟨bits, .eof⟩ with | .ok (v, _) => decide (v = p.value) | .error _ => false
-    if ok then lines := lines ++ [s!"pt {shex} {hexOfNats (bytesOfBits bits)} | Ok({Render.renderPicTiming p.value})"]
+    if ok then lines := lines ++ [s!"pt {shex} {hexOfNats (bytesOfBits bits)} | {Render.ptObs p.value}"]
     let b ← genBp sv
     let bbits ← sealPayload (encBufferingPeriod sv b)
     let okb := match readBufferingPeriod (fun i => if i = sv.spsId then some sv else none) ⟨bbits, .eof⟩ with
